@@ -323,6 +323,12 @@ func (r *rewriter) post(c *astutil.Cursor) bool {
 				c.Replace(&ast.CallExpr{Fun: r.vs("Close"), Args: []ast.Expr{r.site(n), n.Args[0]}})
 			}
 		}
+		if id, ok := n.Fun.(*ast.Ident); ok && id.Name == "len" && len(n.Args) == 1 && r.isChan(n.Args[0]) {
+			// len(ch): a read of the channel's state (check-then-act on a queue's fullness)
+			if _, isB := r.info.Uses[id].(*types.Builtin); isB {
+				c.Replace(&ast.CallExpr{Fun: r.vs("ChanLen"), Args: []ast.Expr{r.site(n), n.Args[0]}})
+			}
+		}
 	case *ast.SendStmt:
 		if r.skip[n] {
 			return true
